@@ -33,6 +33,15 @@ func (ex *Exec) contractEnv(st *State, lc *loopCtx) *Env {
 	}
 	if len(st.frames) > 0 {
 		env.fr = st.frames[0]
+		// a captured variable of a closure under contract denotes its CURRENT content (the cell may have been
+		// assigned, or havocked at a loop head); old(x) is evaluated in the entry state
+		for _, fv := range env.fr.fn.FreeVars {
+			if p, ok := env.fr.regs[fv].(*VPtr); ok && p.Obj != nil {
+				if cur, ok := st.mem[p.Obj]; ok {
+					env.vars[fv.Name()] = cur
+				}
+			}
+		}
 	}
 	if st.results != nil && ex.cur != nil {
 		names := ex.resultNames(ex.cur.fn, ex.cur.contract)
@@ -633,6 +642,12 @@ func (ex *Exec) evalCall(st *State, c *ECall, env *Env, cl *Clause) Value {
 		}
 		// deterministic term (the executor may re-evaluate): rowview(r, o)[k] == r[o + k] (builtin axiom)
 		return App("rowview", SArr, Select(h, sl.Ref), sl.Off)
+	case "chanlast":
+		// the value most recently received from a channel on this path (ghost)
+		if v, ok := st.ghost["$lastrecv"]; ok {
+			return v
+		}
+		ex.evalFail(cl, "chanlast(): no channel receive on this path")
 	case "chansends":
 		// number of channel sends executed so far on this path (ghost)
 		if g, ok := st.ghost["$sends"].(*VTuple); ok {
@@ -650,6 +665,20 @@ func (ex *Exec) evalCall(st *State, c *ECall, env *Env, cl *Clause) Value {
 			return g.Vals[i]
 		}
 		return nil
+	case "allocated":
+		// allocated(s): the slice/map refers to memory that has been allocated by now (its reference is below
+		// the allocation counter at the point of evaluation); monotone over time
+		v := ex.evalIn(st, c.Args[0], env, cl)
+		if p, ok := v.(*VPtr); ok {
+			v = ex.specLoad(st, p)
+		}
+		switch x := v.(type) {
+		case *VSlice:
+			return And(Le(IntLit(0), x.Ref), Lt(x.Ref, st.alloc))
+		case *VMap:
+			return And(Le(IntLit(0), x.Ref), Lt(x.Ref, st.alloc))
+		}
+		ex.evalFail(cl, "allocated of %T", v)
 	case "sameblock":
 		// sameblock(a, b): two slices are views of the same allocation (share memory)
 		a := ex.evalIn(st, c.Args[0], env, cl)
